@@ -288,6 +288,12 @@ pub fn delivered_rids(rec: &RunRecord) -> BTreeSet<u64> {
 /// earlier request for it was already delivered *before* that Start, or two requests overlapping in
 /// flight. Returns the offending argument.
 pub fn duplicate_request(rec: &RunRecord, kind: Kind, ignore_in_sort: bool) -> Option<u32> {
+    duplicate_request_ex(rec, kind, ignore_in_sort, false)
+}
+
+/// `caller_drops`: the harness itself abandons pending requests (C20 clients), so a dropped request may always be
+/// re-issued.
+pub fn duplicate_request_ex(rec: &RunRecord, kind: Kind, ignore_in_sort: bool, caller_drops: bool) -> Option<u32> {
     // state per arg: 0 = none, 1 = in flight, 2 = delivered (or abandoned by the solver itself)
     let mut state: BTreeMap<u32, u8> = BTreeMap::new();
     let mut rid_arg: BTreeMap<u64, u32> = BTreeMap::new();
@@ -324,7 +330,7 @@ pub fn duplicate_request(rec: &RunRecord, kind: Kind, ignore_in_sort: bool) -> O
             Ev::Dropped { rid } => {
                 if let Some(a) = rid_arg.get(rid) {
                     if state.get(a) == Some(&1) {
-                        state.insert(*a, if cancelled { 0 } else { 2 });
+                        state.insert(*a, if cancelled || caller_drops { 0 } else { 2 });
                     }
                 }
             }
